@@ -71,6 +71,31 @@ Definition rel2abs (rel base : str) : option str :=
   | None => None
   end.
 
+(* for( ; *n && *n == *e && *n != '/' && *e != '/'; ++n, ++e) ;  *n == '/' && *e == '/':
+   the entry begins with the first component of the port's name ("name/x" on the
+   sub-tree port "name/" or "name#N/"); Some (what stands behind that '/') *)
+Fixpoint inside_rest (n e : str) : option str :=
+  match n, e with
+  | c :: n', d :: e' =>
+      if (c =? slash) || (d =? slash) then (if (c =? slash) && (d =? slash) then Some e' else None)
+      else if c =? d then inside_rest n' e' else None
+  | _, _ => None
+  end.
+
+Fixpoint has_slash (s : str) : bool :=
+  match s with [] => false | c :: t => (c =? slash) || has_slash t end.
+
+(* the address an entry stands for.  An entry that names a port inside the
+   sub-tree it sits on - only for a parent, looked up as "name/", and only when one
+   name follows the '/' - is resolved below the message's own (expanded) address
+   cur ++ "/": "/name1/x", not "/name#3/x" (fix: commit of stage 5); every other
+   entry beside it: rel2abs(entry, cur) *)
+Definition resolve_entry (parent : bool) (name e cur : str) : option str :=
+  match (if parent then inside_rest name e else None) with
+  | Some r => if has_slash (cut_comma r) then rel2abs e cur else rel2abs r (cur ++ [slash])
+  | None => rel2abs e cur
+  end.
+
 (* the pointers the loop
      for(e = meta[key]; e != NULL; e = strchr(e+1, ','))  { if( *e==',') ++e; ... }
    hands to rel2abs: the whole value, then the text behind every later comma
@@ -105,7 +130,10 @@ Fixpoint entries_from (fuel : nat) (e : str) : list str :=
 Definition entries (v : str) : list str := entries_from (S (length v)) v.
 
 (* ---- metadata of the port a path denotes -------------------------------- *)
-Record pmeta := { enabled_by : option str; depends : option str; default_depends : option str }.
+(* port_name: Port::name of the port the lookup returned (the code compares it with
+   the entry to see whether the entry names a port INSIDE the sub-tree) *)
+Record pmeta := { enabled_by : option str; depends : option str; default_depends : option str;
+                  port_name : str }.
 
 Definition dep_values (m : pmeta) : list str :=
   flat_map (fun o => match o with Some v => entries v | None => [] end)
@@ -135,6 +163,22 @@ Definition flagged (l : list str) : list (bool * str) :=
   | c :: t => (false, c) :: map (fun x => (true, x)) t
   end.
 
+(* the two lookups of one round of the loop, each with the path the entries are
+   resolved against (cur_portname):
+     ports.apropos(is_parent ? cur + "/" : cur)      the address as it stands, a parent as "name/"
+     ports.apropos(rel2abs("self:", cur))            the "self:" port of the directory that holds it
+                                                     (rSelf(.., rEnabledBy(x)) disables the whole directory) *)
+Definition self_name : str := [115; 101; 108; 102; 58].
+Definition lookup_path (ic : bool * str) : str := if fst ic then snd ic ++ [slash] else snd ic.
+Record lookup := { lk_path : str; lk_base : str; lk_parent : bool }.
+Definition lookups (cur : str) : list lookup :=
+  flat_map (fun ic => {| lk_path := lookup_path ic; lk_base := snd ic; lk_parent := fst ic |} ::
+                      match rel2abs self_name (snd ic) with
+                      | Some s => [{| lk_path := s; lk_base := snd ic; lk_parent := fst ic |}]
+                      | None => []
+                      end)
+           (flagged (ancestors cur)).
+
 Section Scan.
   Variable apropos : str -> option pmeta.
   Variable keys : list str.                 (* addresses that have a message *)
@@ -150,15 +194,14 @@ Section Scan.
     | O => None
     | S f =>
         fold_left
-          (fun acc (ic : bool * str) =>
-             let c := snd ic in
-             (* the address itself as it stands, every parent as "name/" *)
-             match apropos (if fst ic then c ++ [slash] else c) with
+          (fun acc (lc : lookup) =>
+             let c := lk_base lc in
+             match apropos (lk_path lc) with
              | None => acc
              | Some m =>
                  fold_left
                    (fun acc e =>
-                      match acc, rel2abs e c with
+                      match acc, resolve_entry (lk_parent lc) (port_name m) e c with
                       | Some l, Some a =>
                           (* a port inside the sub-tree it enables: neither the message
                              itself nor the address this scan started from is a dependency *)
@@ -172,7 +215,7 @@ Section Scan.
                       end)
                    (dep_values m) acc
              end)
-          (flagged (ancestors cur)) (Some [])
+          (lookups cur) (Some [])
     end.
 End Scan.
 
